@@ -83,3 +83,43 @@ package http
 //@   property C15
 //@   requires e != nil
 //@   ensures* err: result != nil && asSE(result) != 0 && ptr(*goa.ServiceError, asSE(result)).Name == "unsupported_media_type"
+
+//@ lemma c15_decoder_agrees property C15: forall h String :: ite(h == "", 0, wireFormat(normMT(h))) == wireFormat(normMT(h))
+//@ lemma c15_unsupported_is_415 property C15 C05: forall f Bool, to Bool, tmp Bool :: httpTable("unsupported_media_type", f, to, tmp) == 415
+
+// ---- errors on the wire (C05, C18) ----------------------------------------------
+
+//@ func NewErrorResponse
+//@   property C05 C18
+//@   requires err != nil
+//@   requires asSE(err) != 0 ==> allocated(ptr(*goa.ServiceError, asSE(err)))
+//@   requires !(typeIs(err, *goa.ServiceError) && asSE(err) == 0)
+//@   let se = ptr(*goa.ServiceError, asSE(err))
+//@   let R = result.(*ErrorResponse)
+//@   ensures* shape: typeIs(result, *ErrorResponse) && R != nil && fresh(R)
+//@   ensures* service: asSE(err) != 0 ==> R.Name == old(se.Name) && R.ID == old(se.ID) && R.Message == old(se.Message) && R.Timeout == old(se.Timeout) && R.Temporary == old(se.Temporary) && R.Fault == old(se.Fault)
+//@   ensures* fault: asSE(err) == 0 ==> R.Name == "fault" && R.Fault && !R.Timeout && !R.Temporary && R.Message == errMsg(err)
+//@   modifies nothing
+
+//@ lemma c05_plain_error_is_500 property C05: forall m String :: httpTable("fault", true, false, false) == 500
+//@ lemma c05_client_errors_are_400 property C05: forall n String :: n != "unsupported_media_type" ==> httpTable(n, false, false, false) == 400
+//@ lemma c18_status_total property C18: forall n String, f Bool, to Bool, tmp Bool :: httpTable(n, f, to, tmp) == 415 || httpTable(n, f, to, tmp) == 500 || httpTable(n, f, to, tmp) == 504 || httpTable(n, f, to, tmp) == 408 || httpTable(n, f, to, tmp) == 503 || httpTable(n, f, to, tmp) == 400
+
+//@ func ErrorEncoder$1
+//@   property C05 C20
+//@   requires w != nil && err != nil && encoder != 0
+//@   requires asSE(err) != 0 ==> allocated(ptr(*goa.ServiceError, asSE(err)))
+//@   requires !(typeIs(err, *goa.ServiceError) && asSE(err) == 0)
+//@   callspec encoder params c rw
+//@       ensures result != nil
+//@       modifies HdrVal[rwHeader(rw)]
+//@   callspec formatter params c e
+//@       ensures result != nil
+//@   let v = encLastVal
+//@   let R = v.(*ErrorResponse)
+//@   ensures* once: select(whCalls, w) == old(select(whCalls, w)) + 1 && encCount == old(encCount) + 1
+//@   ensures* status: select(whLastCode, w) == ite(typeIs(v, *ErrorResponse), httpTable(R.Name, R.Fault, R.Timeout, R.Temporary), statusOf(v))
+//@   ensures* default.service: formatter == 0 && asSE(err) != 0 ==> typeIs(v, *ErrorResponse) && R.Name == old(ptr(*goa.ServiceError, asSE(err)).Name) && R.Fault == old(ptr(*goa.ServiceError, asSE(err)).Fault) && R.Timeout == old(ptr(*goa.ServiceError, asSE(err)).Timeout) && R.Temporary == old(ptr(*goa.ServiceError, asSE(err)).Temporary)
+//@   ensures* default.plain: formatter == 0 && asSE(err) == 0 ==> typeIs(v, *ErrorResponse) && R.Name == "fault" && R.Fault && select(whLastCode, w) == 500
+//@   modifies* HdrVal[rwHeader(w)], whCalls[w], statusSent[w], whLastCode[w], encCalls, encLast, encCount, encLastVal
+//@   frameprop C20
